@@ -217,6 +217,20 @@ def run(ctx):
         chk.ob("C12.c", f"{ss.path} [state keyed by kind]", ok, f"each kind has its own remembered state ({detail})" if ok else f"two kinds share one remembered (generation, time) slot for equal keys ({detail}): a just-updated metric of one kind can be deleted because the other kind is stale", ss.loc())
 
     # ---------------- C12.b
+    # every metric of a covered kind is tracked: the bookkeeping lookup is reached whenever a timeout is set and the mask matches
+    # the kind — no further condition (on the generation, the key, ...) lets a covered metric escape the idle test
+    ss_ = (u.method(REC, "should_store") or [None])[0]
+    if ss_ is not None:
+        look = [c for c in nonforeign_calls(ss_) if c.fn is ss_ and callee_method_name(c) in ("get_mut", "entry", "get", "raw_entry_mut") and "HashMap" in (c.resolved or "")]
+        if look:
+            extra = []
+            for dd, lab in gates(ss_.body, look[0].bb):
+                d_ = strip_sym(dd)
+                txt = sym_str(d_)
+                if "idle_timeout" in txt or sym_is_call(d_, "MetricKindMask::matches", "matches") or "lock" in txt or "poison" in txt.lower() or (d_[0] == "call" and "unwrap_or_else" in str(d_[1])):
+                    continue
+                extra.append(txt[:60])
+            chk.ob("C12.a", f"{ss_.path} [tracking gated by timeout and mask only]", not extra, "the bookkeeping lookup runs whenever a timeout is set and the mask matches the kind" if not extra else f"the bookkeeping is also gated by `{extra[0]}`: a metric of a covered kind that fails this test is never tracked, so it is never dropped however long it stays idle", look[0].loc(), nontrivial=False)
     # the timeout and the mask the decision table reads are the configured ones: Recency::new stores its parameters as given
     # (Some(0) is a timeout of zero — `idle at the first unchanged observation` — not `no timeout`)
     rn = (u.method("metrics_util::registry::recency::Recency", "new") or [None])[0]
